@@ -764,3 +764,87 @@ def jvm_for(tier: str) -> None:
         os.environ["_JAVA_OPTIONS"] = "-XX:TieredStopAtLevel=1 -XX:ParallelGCThreads=2 -XX:CICompilerCount=1"
     else:
         os.environ["_JAVA_OPTIONS"] = "-XX:ParallelGCThreads=4"
+
+
+# ---- for C35 (owned by another bundle): schedule_periodic under the controlled clock -------------------------------------------
+def periodic_traces(kind: str = "eventloop", period: int = 2, nticks: int = 3, dispose_at: Optional[int] = None,
+                    raise_at: Optional[int] = None, action_sleep: int = 0, exit_if_empty: bool = False,
+                    max_workers: Optional[int] = None, horizon: Optional[int] = None, bound: int = 1,
+                    per_level: Sequence[int] = (1, 20, 10), nrandom: int = 5, seed: int = 0) -> List[Dict[str, Any]]:
+    """Run `scheduler.schedule_periodic(period, action, state=0)` on the real scheduler of `kind`
+    ("eventloop" | "newthread" | "threadpool" | "timeout") under DetSched and the controlled clock, for the level-sampled
+    schedules up to `bound` preemptions plus `nrandom` seeded random ones.
+
+    The action logs a tick, optionally sleeps `action_sleep` (controlled clock), raises RuntimeError at its `raise_at`-th
+    invocation (1-based) and otherwise returns state + 1.  A client thread T1 makes the schedule_periodic call and, when
+    `dispose_at` is given, sleeps until that clock and disposes the returned disposable; a time-keeper lets the clock run to
+    `horizon` (default period * (nticks + 1)).
+
+    Returns one dict per DISTINCT outcome:
+      ticks        [(clock, state_in), ...] in invocation order
+      tick_threads thread id per tick (11.. = threads started by the library)
+      sched_ret_t / dispose_call_t / dispose_ret_t   clocks of the client's calls (None when absent)
+      raised       invocation index at which the action raised (None)
+      thread_exc   repr of exceptions that killed logical threads
+      deadlocked, steplimit, final_clock, schedules (multiplicity), decisions (one schedule producing it)
+    No judgement is made here: C35's own specification decides."""
+    hz = horizon if horizon is not None else period * (nticks + 1)
+    outcomes: Dict[str, Dict[str, Any]] = {}
+
+    def run_one(choose):
+        def build(ds):
+            rig = Rig(ds, kind, exit_if_empty, None, max_workers, log_threads=False)
+            ds.trace[:] = []
+            info = {"n": 0}
+            ds.info = info
+
+            def action(state):
+                info["n"] += 1
+                rig.log(e="tick", state=state, k=info["n"])
+                if action_sleep:
+                    shims.sleep(action_sleep)
+                if raise_at is not None and info["n"] == raise_at:
+                    rig.log(e="raise", k=info["n"])
+                    raise RuntimeError("periodic action failed")
+                return (state or 0) + 1
+
+            def client():
+                rig.log(e="call", op="periodic")
+                d = rig.S.schedule_periodic(float(period), action, 0)
+                rig.log(e="ret", op="periodic")
+                if dispose_at is not None:
+                    shims.sleep(max(0, dispose_at - rig.clk()))
+                    rig.log(e="call", op="dispose")
+                    d.dispose()
+                    rig.log(e="ret", op="dispose")
+            ds.spawn("T1", client)
+            ds.spawn("TK", lambda: shims.sleep(hz))
+        return fastsched.run_execution(build, choose, focus=FOCUS_ALL + ("reactivex/scheduler/periodicscheduler.py",),
+                                       max_steps=20000, reuse_threads=True)
+
+    with shims.patched(extra=patches()):
+        ex = fastsched.LevelExplorer(bound=bound, per_level=per_level, random_schedules=nrandom, seed=seed)
+        for ds in ex.explore(run_one):
+            tr = list(ds.trace)
+
+            def first(pred):
+                return next((ev["t"] for ev in tr if pred(ev)), None)
+            out = {
+                "kind": kind, "period": period,
+                "ticks": [(ev["t"], ev["state"]) for ev in tr if ev["e"] == "tick"],
+                "tick_threads": [ev["th"] for ev in tr if ev["e"] == "tick"],
+                "sched_ret_t": first(lambda ev: ev["e"] == "ret" and ev.get("op") == "periodic"),
+                "dispose_call_t": first(lambda ev: ev["e"] == "call" and ev.get("op") == "dispose"),
+                "dispose_ret_t": first(lambda ev: ev["e"] == "ret" and ev.get("op") == "dispose"),
+                "raised": next((ev["k"] for ev in tr if ev["e"] == "raise"), None),
+                "thread_exc": [repr(t.exc)[:120] for t in ds.threads if t.exc is not None],
+                "deadlocked": ds.deadlocked, "steplimit": ds.step_limit_hit, "final_clock": int(round(ds.clock)),
+                "events": tr,
+            }
+            key = json.dumps(out, sort_keys=True, default=str)
+            if key not in outcomes:
+                out["schedules"] = 0
+                out["decisions"] = [d[1] for d in ds.decisions]
+                outcomes[key] = out
+            outcomes[key]["schedules"] += 1
+    return list(outcomes.values())
